@@ -45,6 +45,13 @@ func proofValid(c *check.Check, proof [65]byte, redeemer types.Address) bool {
 	return bytes.Equal(lockPub, pub)
 }
 
+type c21Redeemed struct {
+	data     tx.RedeemCheckData
+	redeemer types.Address
+	gasCoin  types.CoinID
+	due      uint64
+}
+
 // C21 – a check pays out at most once, only to the holder of its password.
 func TestC21(t *testing.T) {
 	rapid.Check(t, func(t *rapid.T) {
@@ -52,6 +59,8 @@ func TestC21(t *testing.T) {
 		wo.FeeCoin = sim.U(t, "feeCoin", 3) == 0
 		h := newHistory(t, wo, checkProfile(), sim.BlockOpts{MaxTxs: 10})
 		used := map[types.Hash]bool{}
+		var redeemed []c21Redeemed
+		regenesisAttempts := 0
 		type pre struct {
 			is                     bool
 			chk                    *check.Check
@@ -124,6 +133,7 @@ func TestC21(t *testing.T) {
 				return
 			}
 			acceptedN++
+			redeemed = append(redeemed, c21Redeemed{data: *p.data, redeemer: p.redeemer, gasCoin: c.GasCoin, due: c.DueBlock})
 			for name, ok := range conds {
 				if !ok {
 					violation(t, "redeem-accepted-"+name, h.R, "check redemption accepted although condition %q fails (issuer %s redeemer %s due %d height %d nonce %x)", name, p.issuer.String(), p.redeemer.String(), c.DueBlock, p.height, c.Nonce)
@@ -187,6 +197,38 @@ func TestC21(t *testing.T) {
 				violation(t, "panic", h.R, "%s", h.R.PanicReport())
 			}
 		}
+		// a redeemed check stays redeemed on a chain started from the exported state: the redeemer
+		// tries again with a fresh transaction (same check, same proof) on the original chain and on
+		// a new chain initialised with the export - both must refuse
+		if len(redeemed) > 0 && !h.R.Halted && sim.U(t, "regenesis", 2) == 0 {
+			e := exportAsGenesis(h.N)
+			w2 := *h.W
+			w2.Genesis = e
+			w2.InitialHeight = int64(h.N.LastHeight) + 1
+			n2 := sim.NewNode(&w2)
+			if len(n2.Panics) > 0 {
+				violation(t, "import-panic", h.R, "InitChain with the export of height %d panicked: %s", h.N.LastHeight, n2.Panics[0].Value)
+			}
+			req := sim.BlockReq{Height: n2.LastHeight + 1, Time: h.N.Time.Add(5e9), Votes: n2.AllSigned()}
+			if !n2.WouldHalt(req) && !n2.BeginBlock(req) {
+				for _, rd := range redeemed {
+					u := h.W.UserByAddr(rd.redeemer)
+					if u == nil {
+						continue
+					}
+					raw := sim.SignedTx(&w2, u, n2.App.CurrentState().Accounts().GetNonce(u.Addr)+1, tx.TypeRedeemCheck, rd.data, uint64(rd.gasCoin))
+					resp, ok := n2.DeliverTx(raw)
+					regenesisAttempts++
+					if !ok {
+						violation(t, "panic", h.R, "redeeming an already redeemed check on the chain started from the export panicked")
+					}
+					if resp.Code == 0 {
+						violation(t, "redeemed-twice-after-regenesis", h.R, "a check redeemed on the original chain (redeemer %s) was paid out again on a chain started from the export of height %d", rd.redeemer.String(), h.N.LastHeight)
+					}
+				}
+			}
+		}
+		sim.S.LabelN("C21/redemption-attempts-after-regenesis", regenesisAttempts)
 		// every redeemed hash is exported as used
 		exp := map[string]bool{}
 		for _, u := range h.G.V.Exp.UsedChecks {
